@@ -159,7 +159,7 @@ def classify_cmp(expr, lt, lv, rt, rv):
     s = squash(expr).replace("*", "").replace("&", "")
     ops = r"(<=|>=|<|>)"
     m = re.match(r"^(\w+)%s(\w+)$" % ops, s)
-    if m and (m.group(1), m.group(3)) == (lv, rv) and lt == rt and lt in ("Int", "Float"):
+    if m and (m.group(1), m.group(3)) == (lv, rv) and lt == rt and lt in ("Int", "Float", "Str"):
         return "CDirect %s" % REL[m.group(2)]
     m = re.match(r"^\(?\(?(\w+)asf64\)?\)?%s(\w+)$" % ops, s)
     if m and (m.group(1), m.group(3)) == (lv, rv) and (lt, rt) == ("Int", "Float"):
@@ -199,9 +199,37 @@ def top_arms(body, scrutinee):
     return {squash(p): (g, r) for p, g, r in split_arms(match_on(body, scrutinee))}
 
 
+def eq_how(op, rhs, l, r, amp):
+    """shape of the Eq / NotEq arm: Value equality, the numeric helper, or unknown"""
+    if rhs is None:
+        return "EQUnknown"
+    if op == "Eq":
+        if rhs == "Some(Value::Bool(%s==%s))" % (l, r):
+            return "EQValue"
+        if rhs == "Some(Value::Bool(values_eq(%s%s,%s%s)))" % (amp, l, amp, r):
+            return "EQNumeric"
+    else:
+        if rhs == "Some(Value::Bool(%s!=%s))" % (l, r):
+            return "EQValue"
+        if rhs == "Some(Value::Bool(!values_eq(%s%s,%s%s)))" % (amp, l, amp, r):
+            return "EQNumeric"
+    return "EQUnknown"
+
+
+VALUES_EQ_BODY = ("match(left,right){(Value::Int(i),Value::Float(f))|(Value::Float(f),Value::Int(i))=>"
+                  "{cmp_int_float(*i,*f)==Some(Ordering::Equal)}_=>left==right}")
+
+
+def check_values_eq(src):
+    body = squash(fn_body(src, "values_eq")).replace("std::cmp::", "")
+    if body != VALUES_EQ_BODY:
+        raise Shape("values_eq is not `Int/Float => cmp_int_float(i, f) == Some(Equal), _ => left == right`: " + body[:200])
+
+
 def extract_evaluator(src):
     rows = []
     facts = {}
+    hows = {}
     # ---- eval_expr_with_functions / Expr::Binary
     body = fn_body(src, "eval_expr_with_functions")
     m = re.search(r"Expr::Binary\s*\{\s*op\s*,\s*left\s*,\s*right\s*\}\s*=>\s*\{", body)
@@ -221,9 +249,9 @@ def extract_evaluator(src):
         if rhs is None or g is not None:
             raise Shape("eval_expr_with_functions: no plain BinOp::%s arm" % op)
         rows += cmp_arms(match_on(rhs, r"\(\s*&left_val\s*,\s*&right_val\s*\)"), "FExpr", op)
-    for op, tok, name in (("Eq", "==", "expr_eq_value_eq"), ("NotEq", "!=", "expr_ne_value_ne")):
+    for op, name in (("Eq", "expr_eq_how"), ("NotEq", "expr_ne_how")):
         g, rhs = arms.get("BinOp::" + op, (None, None))
-        facts[name] = rhs is not None and g is None and squash(rhs) == "Some(Value::Bool(left_val%sright_val))" % tok
+        hows[name] = eq_how(op, None if (rhs is None or g is not None) else squash(rhs), "left_val", "right_val", "&")
     for op, tok, name in (("And", "&&", "expr_and_strict"), ("Or", "||", "expr_or_strict")):
         g, rhs = arms.get("BinOp::" + op, (None, None))
         facts[name] = rhs is not None and g is None and squash(rhs) == \
@@ -243,10 +271,12 @@ def extract_evaluator(src):
         if rhs is None or g is not None:
             raise Shape("eval_binary_op: no plain BinOp::%s arm" % op)
         rows += cmp_arms(match_on(rhs, r"\(\s*left\s*,\s*right\s*\)"), "FBinop", op)
-    for op, tok, name in (("Eq", "==", "binop_eq_value_eq"), ("NotEq", "!=", "binop_ne_value_ne")):
+    for op, name in (("Eq", "binop_eq_how"), ("NotEq", "binop_ne_how")):
         g, rhs = arms.get("BinOp::" + op, (None, None))
-        facts[name] = rhs is not None and g is None and squash(rhs) == "Some(Value::Bool(left%sright))" % tok
-    return rows, facts
+        hows[name] = eq_how(op, None if (rhs is None or g is not None) else squash(rhs), "left", "right", "")
+    if "EQNumeric" in hows.values():
+        check_values_eq(src)
+    return rows, facts, hows
 
 
 def extract_sase(src):
@@ -304,6 +334,8 @@ def extract_sase(src):
     body = fn_body(src, "values_equal")
     if squash(body) == "left==right":
         ve = "VEValueEqAll"
+    elif squash(body) == "values_eq(left,right)":
+        ve = "VENumericAll"
     else:
         rows = []
         arms = split_arms(match_on(body, r"\(\s*left\s*,\s*right\s*\)"))
@@ -336,10 +368,16 @@ def extract_sase(src):
     return vc, cv, ve
 
 
+def ve_is_numeric(sa):
+    return squash(fn_body(sa, "values_equal")) == "values_eq(left,right)"
+
+
 def generate(repo=REPO):
     ev = strip_comments(open(os.path.join(repo, EVAL)).read())
     sa = strip_comments(open(os.path.join(repo, SASE)).read())
-    rows, facts = extract_evaluator(ev)
+    rows, facts, hows = extract_evaluator(ev)
+    if ve_is_numeric(sa):
+        check_values_eq(ev)
     vc, cv, ve = extract_sase(sa)
     has_helper = bool(re.search(r"\bfn\s+cmp_int_float\s*\(", ev + sa))
     uses_helper = any("CExact" in r for r in rows) or any("VCExact" in r for r in vc)
@@ -356,6 +394,9 @@ def generate(repo=REPO):
     out.append("Definition ve_body : vebody := %s." % ve)
     for k in sorted(facts):
         out.append("Definition %s : bool := %s." % (k, "true" if facts[k] else "false"))
+    for k in sorted(hows):
+        out.append("Definition %s : eqhow := %s." % (k, hows[k]))
+    facts = dict(facts, **hows)
     return "\n".join(out) + "\n", {"arms": len(rows), "vc": len(vc), "cv": len(cv), "facts": facts}
 
 
